@@ -15,6 +15,7 @@ mod props;
 mod rcdom;
 mod refcss;
 mod refimpl;
+mod tree;
 mod util;
 
 use cfg::Cfg;
@@ -97,6 +98,10 @@ pub trait Prop: Sync {
     fn extra_checks(&self, _r: &mut R, _tier: Tier) -> (usize, Vec<(Case, Viol)>) {
         (0, vec![])
     }
+    /// compare the render trees of model and implementation on every case as well (tree-level correspondence)?
+    fn tree_level(&self) -> bool {
+        true
+    }
     /// may a failing case be shrunk by deleting bytes / lowering the width?  (false when `aux` describes the HTML)
     fn shrinkable(&self) -> bool {
         true
@@ -138,6 +143,11 @@ fn par_map<T: Sync, U: Send>(items: &[T], f: impl Fn(&T) -> U + Sync) -> Vec<U> 
 fn model_obs(model: &str, cases: &[Case]) -> Vec<Obs> {
     let reqs: Vec<String> = par_map(cases, |c| obs::proto_line(&c.html, &c.cfg, c.width));
     obs::run_model(model, &reqs, jobs()).iter().map(|l| obs::parse_model_line(l)).collect()
+}
+
+fn model_trees(model: &str, cases: &[Case]) -> Vec<String> {
+    let reqs: Vec<String> = par_map(cases, |c| format!("TREE {}", obs::proto_line(&c.html, &c.cfg, c.width)));
+    obs::run_model(model, &reqs, jobs()).iter().map(|l| l.trim_end_matches('\n').to_string()).collect()
 }
 
 fn classes_agree(imp: &Obs, model: &Obs) -> bool {
@@ -275,6 +285,15 @@ fn cmd_run(args: &[String]) {
     });
     // 2. the model
     let mobs = model_obs(model, &cases);
+    // 2b. the render trees of both sides (tree-level correspondence)
+    let tree_on = prop.tree_level() && std::env::var("VERIF_NOTREE").is_err();
+    let (itrees, mtrees): (Vec<String>, Vec<String>) = if tree_on {
+        (par_map(&cases, |c| tree::impl_tree(&c.html, &c.cfg, prop.timeout())), model_trees(model, &cases))
+    } else {
+        (vec![], vec![])
+    };
+    let mut tree_cases = 0usize;
+    let mut tree_disagree = 0usize;
 
     // 3. compare
     let mut findings: Vec<Finding> = Vec::new();
@@ -314,6 +333,20 @@ fn cmd_run(args: &[String]) {
                     oracle_viol += 1;
                     if findings.iter().filter(|f| f.kind == "oracle").count() < 5 {
                         findings.push(Finding { kind: "oracle", case: c.clone(), what: v.what.clone(), known: None, imp: io.short(), model: mo.short() });
+                    }
+                }
+            }
+        }
+        if tree_on {
+            // a case on which the implementation does not return (a known hang) has no tree to compare
+            let (it, mt) = (&itrees[i], &mtrees[i]);
+            if !(it.starts_with("hang") || matches!(io, Obs::Hang(_))) {
+                tree_cases += 1;
+                if !tree::trees_agree(it, mt) {
+                    tree_disagree += 1;
+                    proj_disagree += 1;
+                    if findings.iter().filter(|f| f.kind == "model").count() < 5 {
+                        findings.push(Finding { kind: "model", case: c.clone(), what: format!("tree: model and implementation build different render trees ({})", tree::first_diff(it, mt)), known: None, imp: it.chars().take(600).collect(), model: mt.chars().take(600).collect() });
                     }
                 }
             }
@@ -377,6 +410,18 @@ fn cmd_run(args: &[String]) {
             }
             f.imp = o.short();
             f.model = model_obs(model, std::slice::from_ref(&f.case))[0].short();
+        } else if f.what.starts_with("tree:") {
+            let pred = |t: &Case| {
+                let it = tree::impl_tree(&t.html, &t.cfg, prop.timeout());
+                let mt = &model_trees(model, std::slice::from_ref(t))[0];
+                !it.starts_with("hang") && !tree::trees_agree(&it, mt)
+            };
+            f.case = shrink(&f.case, &pred, 150);
+            let it = tree::impl_tree(&f.case.html, &f.case.cfg, prop.timeout());
+            let mt = model_trees(model, std::slice::from_ref(&f.case))[0].clone();
+            f.what = format!("tree: model and implementation build different render trees ({})", tree::first_diff(&it, &mt));
+            f.imp = it.chars().take(2000).collect();
+            f.model = mt.chars().take(2000).collect();
         } else {
             let pred = |t: &Case| {
                 let o = obs::run_impl(&t.html, &t.cfg, t.width, prop.timeout());
@@ -407,7 +452,7 @@ fn cmd_run(args: &[String]) {
     let streams_s: BTreeMap<String, usize> = streams.iter().map(|(k, v)| (k.to_string(), *v)).collect();
     let known_s: BTreeMap<String, usize> = known_hits.iter().map(|(k, v)| (k.to_string(), *v)).collect();
     let out = format!(
-        "{{\"property\":{},\"tier\":{},\"seed\":{},\"evaluations\":{},\"corpus_cases\":{},\"distinct_nontrivial\":{},\"rule\":{},\"streams\":{},\"outcome_classes\":{},\"model_err_sites\":{},\"whole_observation_drift\":{},\"projection_disagreements\":{},\"oracle_violations\":{},\"known_finding_hits\":{},\"findings\":[{}],\"replays\":[{}],\"samples\":[{}],\"wall_s\":{:.2}}}",
+        "{{\"property\":{},\"tier\":{},\"seed\":{},\"evaluations\":{},\"corpus_cases\":{},\"distinct_nontrivial\":{},\"rule\":{},\"streams\":{},\"outcome_classes\":{},\"model_err_sites\":{},\"whole_observation_drift\":{},\"projection_disagreements\":{},\"tree_cases\":{},\"tree_disagreements\":{},\"oracle_violations\":{},\"known_finding_hits\":{},\"findings\":[{}],\"replays\":[{}],\"samples\":[{}],\"wall_s\":{:.2}}}",
         json_str(prop_id),
         json_str(if tier == Tier::Quick { "quick" } else { "thorough" }),
         seed,
@@ -420,6 +465,8 @@ fn cmd_run(args: &[String]) {
         fmt_map(&model_sites),
         whole_drift,
         proj_disagree,
+        tree_cases,
+        tree_disagree,
         oracle_viol,
         fmt_map(&known_s),
         findings.iter().map(|f| f.to_json(prop_id)).collect::<Vec<_>>().join(","),
@@ -535,6 +582,21 @@ fn main() {
         Some("single-main") => cmd_single_main(&args[1..]),
         Some("replay") => cmd_replay(&args[1..]),
         Some("witness") => cmd_witness(&args[1..]),
+        Some("tree") => {
+            // tree <cfg-enc (8 tokens)> [model]: HTML on stdin; prints the implementation's tree tokens and, given the
+            // driver's path, the model's
+            let cfg = Cfg::decode(&args[1..9].join(" ")).expect("bad cfg");
+            let mut html = Vec::new();
+            std::io::stdin().read_to_end(&mut html).unwrap();
+            let it = tree::impl_tree(&html, &cfg, 20);
+            println!("impl  {it}");
+            if let Some(m) = args.get(9) {
+                let c = Case::new(html, cfg, 80, "cli");
+                let mt = model_trees(m, std::slice::from_ref(&c))[0].clone();
+                println!("model {mt}");
+                println!("{}", if tree::trees_agree(&it, &mt) { "agree".to_string() } else { tree::first_diff(&it, &mt) });
+            }
+        }
         Some("proto") => {
             // proto <prop> <tier> <seed>: one line per generated case: "<index>\t<stream>\t<width>\t<cfg>\t<request line>"
             let prop = props::get(&args[1]).expect("unknown property");
